@@ -1,10 +1,10 @@
 #!/bin/sh
 # usage: tools/mutant.sh <patch.diff> <ID> [tier]   - apply a patch to /repo, run one check, restore /repo
 # prints the check's last lines; exit status: 0 = check stayed green (patch NOT detected), 1 = detected, 2 = inconclusive
-P=$1; ID=$2; TIER=${3:-quick}
+P=$(realpath "$1"); ID=$2; TIER=${3:-quick}
 cd /repo || exit 2
 if ! git diff --quiet; then echo "/repo has uncommitted changes"; exit 2; fi
-git apply "$P" || { echo "patch does not apply"; exit 2; }
+git apply "$(cd /verif && realpath "$P")" || { echo "patch does not apply"; exit 2; }
 cd /verif
 out=$(./check "$ID" --tier "$TIER" 2>&1); code=$?
 git -C /repo checkout -- . 
